@@ -219,6 +219,10 @@ pub struct World {
     inst: AtomicU64,
     /// when false the log is not appended (stress runs that only use the counters)
     pub logging: bool,
+    /// non-zero: the standard caller actors derive from it (and the request id) whether they keep
+    /// a completed call future alive for a while, and whether they pause between a successful
+    /// `poll_ready` and `call` — both legal for a Tower client (see actors.rs)
+    pub habits: AtomicU64,
 }
 
 impl World {
@@ -229,6 +233,7 @@ impl World {
         Arc::new(World {
             t0: Mutex::new(None),
             std0: std::time::Instant::now(),
+            habits: AtomicU64::new(0),
             st: Mutex::new(Inner {
                 log: Vec::new(),
                 seq: 0,
@@ -313,6 +318,8 @@ impl World {
             ready: ReadyScript::Always,
             pend_left: 0,
             group,
+            born: self.now(),
+            warm: None,
         }
     }
 }
@@ -356,6 +363,9 @@ pub enum ReadyScript {
     /// Ready(Err(class)) while another call of this probe's group is in flight, Ready(Ok) otherwise
     /// (a one-slot backend: clones made while the slot is taken cannot become ready)
     FailWhileBusy(u8),
+    /// every instance (the original and each clone) becomes ready this many microseconds of virtual
+    /// time after it was created (a connection that has to warm up / be checked out of a pool)
+    WarmUp(u64),
 }
 
 pub struct Probe {
@@ -366,6 +376,9 @@ pub struct Probe {
     ready: ReadyScript,
     pend_left: u32,
     group: u32,
+    /// virtual instant of creation (WarmUp) and the timer that wakes a waiting caller
+    born: Us,
+    warm: Option<Pin<Box<tokio::time::Sleep>>>,
 }
 
 impl Probe {
@@ -393,6 +406,8 @@ impl Clone for Probe {
                 _ => 0,
             },
             group: self.group,
+            born: self.w.now(),
+            warm: None,
         }
     }
 }
@@ -470,6 +485,23 @@ impl tower::Service<Req> for Probe {
             ReadyScript::Fail(c) => {
                 let serial = self.w.next_serial();
                 (Poll::Ready(Err(PErr { serial, req_id: u64::MAX, class: c })), 2)
+            }
+            ReadyScript::WarmUp(us) => {
+                let at = self.born.saturating_add(us);
+                if self.w.now() >= at {
+                    self.warm = None;
+                    (Poll::Ready(Ok(())), 0)
+                } else {
+                    let t0 = self.w.t0();
+                    let sl = self.warm.get_or_insert_with(|| Box::pin(tokio::time::sleep_until(t0 + std::time::Duration::from_micros(at))));
+                    match sl.as_mut().poll(cx) {
+                        Poll::Ready(()) => {
+                            self.warm = None;
+                            (Poll::Ready(Ok(())), 0)
+                        }
+                        Poll::Pending => (Poll::Pending, 1),
+                    }
+                }
             }
             ReadyScript::FailWhileBusy(c) => {
                 let busy = *lock(&self.w.st).inflight.get(&self.group).unwrap_or(&0) > 0;
